@@ -9,6 +9,7 @@ CHECK = {
     "entries": [
         {"fn": P + "vC30_twoNodes", "replay": "model-only"},
         {"fn": P + "vC30_reactivation", "replay": "model-only", "opts": {"rounds": 4}},
+        {"fn": P + "vC30_failedActivation", "replay": "model-only", "opts": {"rounds": 4}},
     ],
     "opts": {"rounds": 3, "unwind": 3, "unwind_mode": "assume", "feasibility": False, "substitute": SUB},
     "stop": list(SUB.keys()),
